@@ -71,6 +71,65 @@ def run(ctx):
         return x[0] if x else None
 
     rng = ctx.rng
+
+    def build(c):
+        if c["cls"] == "tx":
+            m = data_msg.TxMsg(fn=opt(c["fn"]), tn=opt(c["tn"]), ver=opt(c["ver"]))
+        else:
+            m = data_msg.RxMsg(fn=opt(c["fn"]), tn=opt(c["tn"]), ver=opt(c["ver"]))
+        assign(m, c)
+        return m
+
+    def assign(m, c):
+        """Plain attribute assignment of every field of case c to an existing message object."""
+        m.fn, m.tn, m.ver = opt(c["fn"]), opt(c["tn"]), opt(c["ver"])
+        bl = opt(c["blen"])
+        if c["cls"] == "tx":
+            m.pwr = opt(c["pwr"])
+            m.burst = None if bl is None else bytearray(rng.getrandbits(1) for _ in range(bl))
+        else:
+            m.rssi, m.toa256, m.ci = opt(c["rssi"]), opt(c["toa"]), opt(c["ci"])
+            m.tsc, m.tsc_set = opt(c["tsc"]), opt(c["tscset"])
+            m.mod_type = D.MODOF.get(c["mod"], c["mod"])
+            m.nope_ind = c["nope"]
+            m.burst = None if bl is None else array("b", [rng.randint(-127, 127) for _ in range(bl)])
+
+    # the verdict must depend on the field values only, not on the object's history: every case is
+    # also reached by re-assigning the fields of an object that has just been validated and sent
+    valid_by_cls = {}
+    for item in cases:
+        if item["valid"]:
+            valid_by_cls.setdefault(item["c"]["cls"], []).append(item["c"])
+    for k, item in enumerate(cases):
+        c, valid = item["c"], item["valid"]
+        if k % 3 != 0 and ctx.tier == "quick":
+            continue
+        base = rng.choice(valid_by_cls[c["cls"]])
+        m = build(base)
+        if outcome(m.validate) != "ok" or outcome(m.gen_msg) != "ok":
+            continue                      # reported by the fresh-object pass below
+        net.take()
+        dif.send_msg(m)
+        net.take()
+        assign(m, c)
+        g = outcome(m.gen_msg)
+        s2 = outcome(lambda: dif.send_msg(m))
+        sent = net.take()
+        v = outcome(m.validate)
+        want = "ok" if valid else "ValueError"
+        ctx.count()
+        what = None
+        if g != want:
+            what = ("C13.gen_msg.reused-object", "gen_msg() -> %s after re-assigning the fields of a sent message, specification says %s" % (g, want))
+        elif s2 != "ok":
+            what = ("C13.send.raises.reused-object", "send_msg() raised %s" % s2)
+        elif len(sent) != (1 if valid else 0):
+            what = ("C13.send.count.reused-object", "send_msg() emitted %d datagrams for a %s message" % (len(sent), "valid" if valid else "invalid"))
+        elif v != want:
+            what = ("C13.validate.reused-object", "validate() -> %s, specification says %s" % (v, want))
+        if what:
+            ctx.violation("C13/%s/%s-v%s/%s" % (what[0], c["cls"], opt(c["ver"]), field_class(c)), what[1] + " for " + json.dumps(c), dict(case=c, valid=valid, base=base))
+
     for k, item in enumerate(cases):
         c, valid = item["c"], item["valid"]
         if c["cls"] == "tx":
